@@ -100,8 +100,22 @@ def oracleSolve (U : Universe) (P : Problem) (cfg : String) (r : ImplSolve) : Li
       [s!"oracle-fail C05 supported: solution [{natList sel}] contains a solvable not reachable from the root/soft requirements (supported: [{natList (supportClosure U P sel)}])"]
     let o7 := if P.soft.isEmpty then
         match preferredConsistent U P with
-        | some pref => if sameSet pref sel then ["info preferred-consistent 1"] else
-            [s!"oracle-fail C07 preferred: first choices [{natList pref}] are mutually compatible but solution is [{natList sel}]", "info preferred-consistent 1"]
+        | some pref =>
+          let o := if sameSet pref sel then [] else
+            [s!"oracle-fail C07 preferred: first choices [{natList pref}] are mutually compatible but solution is [{natList sel}]"]
+          -- C09 exactness on conflict-free problems without hints: dependencies requested for exactly the
+          -- solvables of the solution, candidates for exactly the names their dependencies and the root mention
+          let dcalls := (r.calls.filter (·.startsWith "d")).map (fun c => nat! (c.drop 1).toString)
+          let ccalls := (r.calls.filter (·.startsWith "c")).map (fun c => nat! (c.drop 1).toString)
+          let names := (namesOfDeps U P.reqs P.constraints ++ pref.flatMap (fun s => match U.deps s with
+              | .known rs cs => namesOfDeps U rs cs | .unknown _ => [])).eraseDups
+          let ox := if sync && noHints U && cfgGet cfg "sortpeeks" != "1" then
+              (if sameSet dcalls pref then [] else
+                [s!"oracle-fail C09 exact-deps: conflict-free problem, solution [{natList pref}], but get_dependencies was called for [{natList dcalls}]"]) ++
+              (if sameSet ccalls names then [] else
+                [s!"oracle-fail C09 exact-cands: conflict-free problem, names mentioned [{natList names}], but get_candidates was called for [{natList ccalls}]"])
+            else []
+          o ++ ox ++ ["info preferred-consistent 1"]
         | none => []
       else []
     let o8 := if P.soft.isEmpty then
